@@ -270,7 +270,13 @@ func (r *WALReader) ReadHeader() error {
 		return fmt.Errorf("unsupported wal version: %d", version)
 	}
 
-	r.pageSize = binary.BigEndian.Uint32(hdr[8:])
+	// SQLite ignores a WAL whose page size is not a power of two between 512 and 64KB.
+	pageSize := binary.BigEndian.Uint32(hdr[8:])
+	if pageSize < 512 || pageSize > 65536 || pageSize&(pageSize-1) != 0 {
+		return io.EOF
+	}
+
+	r.pageSize = pageSize
 	r.seq = binary.BigEndian.Uint32(hdr[12:])
 	r.salt1 = binary.BigEndian.Uint32(hdr[16:])
 	r.salt2 = binary.BigEndian.Uint32(hdr[20:])
